@@ -5,5 +5,5 @@ Record case := { r_req : request; r_obs : obs13 }.
 Definition obs13_eqb (a b : obs13) : bool :=
   match a, b with OResult x, OResult y => dict_eqb x y | OFailed, OFailed => true | _, _ => false end.
 Definition check (k : case) : verdict :=
-  if negb (wf_request (r_req k)) then VSkip else
+  if negb (wf_request_wide (r_req k)) then VSkip else
   mk_verdict (Some (obs13_eqb (model_obs (r_req k)) (r_obs k))) (oracle (r_req k) (r_obs k)).
